@@ -205,7 +205,7 @@ pub fn main(tier: Option<&str>) {
     let run = Run::new("C16", "exploration", tier);
     run.rule(
         "strings: every string of length <= N over the alphabet {0,1,9,.,_,x,+,-,space,a,b,o} plus the structured family \
-         d{1..78}[.d{0..20}] with digits in {0,1,9}; amounts: {1,9,10}*10^k+-1, 2^k+-1, MAX, MAX-1, single fraction digits; \
+         d{1..78}[.d{0..20}] with digits in {0,1,9}, and fractions of every length 1..=600 (significant digit last / in the middle / all nines) after a small and a maximal whole part; amounts: {1,9,10}*10^k+-1, 2^k+-1, MAX, MAX-1, single fraction digits; \
          pairs: all ordered pairs of the boundary set for checked_add/checked_sub. A string case is non-trivial when it is \
          decimal-shaped (digits with at most one '.'); every amount and pair is non-trivial.",
     );
@@ -251,6 +251,17 @@ pub fn main(tier: Option<&str>) {
         check_parse(&run, &format!("{}.{}", hi.to_string(), lo));
         check_parse(&run, &hi.to_string());
         fam += 2;
+    }
+    // long fractions: every length 1..=600 (across the 8-, 16- and 32-bit wrap-around points of a digit count), with the
+    // significant digit at the end, in the middle, and all nines; with a small and a large whole part
+    for fl in 1..=600usize {
+        for units in ["0", "1", "115792089237316195423570985008687907853269984665640564039457"] {
+            let zeros = "0".repeat(fl - 1);
+            for s in [format!("{units}.{zeros}5"), format!("{units}.{}7{}", "0".repeat(fl / 2), "0".repeat(fl - fl / 2 - 1).replacen('0', "3", 1)), format!("{units}.{}", "9".repeat(fl))] {
+                check_parse(&run, &s);
+                fam += 1;
+            }
+        }
     }
     run.extra("structured_strings", json!(fam));
     run.sample(json!({"from_str": format!("{}.{}", max.split_pow10(18).0.to_string(), max.split_pow10(18).1)}));
